@@ -247,6 +247,12 @@ type Clock struct {
 	Entries []TimeFrame `json:"entries"`
 	Weekday int         `json:"weekday"`
 	Hour    int         `json:"hour"`
+	// At: instead of the weekday and hour the harness read, give the model the instant (Unix
+	// seconds) and the local zone's offset (seconds east of UTC) and let it read the local wall
+	// clock itself (`at=unix,offset`, Model/C04.lean timeAllowedAt).
+	At     bool  `json:"at,omitempty"`
+	Unix   int64 `json:"unix,omitempty"`
+	Offset int   `json:"offset,omitempty"`
 }
 
 func (k *Clock) tokens() []string {
@@ -256,6 +262,9 @@ func (k *Clock) tokens() []string {
 	var es []string
 	for _, e := range k.Entries {
 		es = append(es, fmt.Sprintf("%d-%d-%d", e.Weekday, e.HourStart, e.HourEnd))
+	}
+	if k.At {
+		return []string{"tf=" + core.JoinList(es), "at=" + core.JoinList([]string{fmt.Sprint(k.Unix), fmt.Sprint(k.Offset)})}
 	}
 	return []string{"tf=" + core.JoinList(es), "now=" + core.JoinList([]string{core.Itoa(k.Weekday), core.Itoa(k.Hour)})}
 }
@@ -329,6 +338,53 @@ type PacEntry struct {
 	R    PacResult `json:"r"`
 }
 
+// PacCond is a condition of a generated PAC script over FindProxyForURL's two arguments
+// (C05.UrlCond): H host == Lit | h shExpMatch(host, Lit) | G shExpMatch(url, Lit) |
+// P url.substring(0, len(Lit)) == Lit | C url.indexOf(Lit) >= 0 | N !(Args[0]) | A (Args[0]) && (Args[1]).
+type PacCond struct {
+	Op   string    `json:"op"`
+	Lit  string    `json:"lit,omitempty"`
+	Args []PacCond `json:"args,omitempty"`
+}
+
+// JS renders the condition as JavaScript.
+func (c PacCond) JS() string {
+	lit, _ := json.Marshal(c.Lit)
+	switch c.Op {
+	case "H":
+		return "host == " + string(lit)
+	case "h":
+		return "shExpMatch(host, " + string(lit) + ")"
+	case "G":
+		return "shExpMatch(url, " + string(lit) + ")"
+	case "P":
+		return fmt.Sprintf("url.substring(0, %d) == %s", len(c.Lit), lit)
+	case "C":
+		return "url.indexOf(" + string(lit) + ") >= 0"
+	case "N":
+		return "!(" + c.Args[0].JS() + ")"
+	case "A":
+		return "(" + c.Args[0].JS() + ") && (" + c.Args[1].JS() + ")"
+	}
+	return "false"
+}
+
+func (c PacCond) atoms() []string {
+	switch c.Op {
+	case "N":
+		return append([]string{"N"}, c.Args[0].atoms()...)
+	case "A":
+		return append(append([]string{"A"}, c.Args[0].atoms()...), c.Args[1].atoms()...)
+	}
+	return []string{c.Op, core.HexS(c.Lit)}
+}
+
+// PacRule is `if (Cond) { R }`; the rules come before the host table in the script.
+type PacRule struct {
+	Cond PacCond   `json:"cond"`
+	R    PacResult `json:"r"`
+}
+
 type CustomEntry struct {
 	Host string    `json:"host"`
 	URL  *ProxyURL `json:"url"`
@@ -344,6 +400,7 @@ type HostPortPair struct {
 type RouteCfg struct {
 	Base            string         `json:"base"` // none | static | pac | custom
 	Static          *ProxyURL      `json:"static,omitempty"`
+	PacRules        []PacRule      `json:"pac_rules,omitempty"` // conditions on url/host, in front of the host table
 	PacTable        []PacEntry     `json:"pac_table,omitempty"`
 	PacDefault      PacResult      `json:"pac_default"`
 	CustomTable     []CustomEntry  `json:"custom_table,omitempty"`
@@ -379,6 +436,15 @@ func RouteTokens(rc *RouteCfg, localNames []string) []string {
 			es = append(es, core.JoinList(append([]string{core.HexS(e.Host)}, e.R.atoms()...)))
 		}
 		t = append(t, "pactable="+core.JoinList2(es), "pacdflt="+core.JoinList(rc.PacDefault.atoms()))
+		if len(rc.PacRules) > 0 {
+			// only `C05 routeseq` reads these; the single-request verbs must be given the configuration
+			// specialised to the request (SeqAnswer.Specialise)
+			var rs []string
+			for _, e := range rc.PacRules {
+				rs = append(rs, core.JoinList(append(e.Cond.atoms(), e.R.atoms()...)))
+			}
+			t = append(t, "pacrules="+core.JoinList2(rs))
+		}
 	case "custom":
 		t = append(t, "base=custom")
 		var es []string
@@ -465,6 +531,84 @@ func AskRoute(m *core.Model, rc *RouteCfg, localNames []string, kind, scheme, ho
 	return Route{}
 }
 
+// SeqReq is what the proxy function sees of one request of a sequence (C05.RouteReq).
+type SeqReq struct {
+	Connect bool    `json:"connect,omitempty"`
+	Scheme  string  `json:"scheme,omitempty"` // http | https (inside an intercepted tunnel); "" for CONNECT
+	Host    string  `json:"host"`             // URL host / CONNECT authority as written
+	Path    string  `json:"path,omitempty"`
+	Query   *string `json:"query,omitempty"`
+}
+
+// SeqAnswer is the model's answer for one request of a sequence.
+type SeqAnswer struct {
+	Route Route
+	// Pac is the script's answer for this request's URL (nil when the configuration has no PAC script).
+	Pac *PacResult
+	URL string // the URL string the script is asked about
+}
+
+// Specialise is the configuration as it answers this one request: the PAC base replaced by the
+// script's answer for the request's URL (C05.InstCfg.at) — what the single-request verbs are given.
+func (a *SeqAnswer) Specialise(rc *RouteCfg) RouteCfg {
+	out := *rc
+	if a.Pac != nil && rc.Base == "pac" {
+		out.PacRules, out.PacTable, out.PacDefault = nil, nil, *a.Pac
+	}
+	return out
+}
+
+func decodeRoute(f []string) Route {
+	switch f[0] {
+	case "err":
+		return Route{Kind: "err", Err: f[1]}
+	case "direct":
+		return Route{Kind: "direct", Addr: string(core.MustUnHex(f[1])), Dial: string(core.MustUnHex(f[2]))}
+	case "proxy":
+		return Route{Kind: "proxy", Proxy: f[1], Addr: string(core.MustUnHex(f[2])), Dial: string(core.MustUnHex(f[3]))}
+	}
+	core.Fatalf("unparsable route %q", strings.Join(f, " "))
+	return Route{}
+}
+
+// AskRouteSeq: `C05 routeseq` — one proxy instance (configuration rc, hosts-file aliases) folded over
+// the requests in order; one answer per request.
+func AskRouteSeq(m *core.Model, rc *RouteCfg, aliases []string, reqs []SeqReq) []SeqAnswer {
+	var rs []string
+	for _, q := range reqs {
+		k, qs := "r", "~"
+		if q.Connect {
+			k = "c"
+		}
+		if q.Query != nil {
+			qs = core.HexS(*q.Query)
+		}
+		rs = append(rs, core.JoinList([]string{k, core.HexS(q.Scheme), core.HexS(q.Host), core.HexS(q.Path), qs}))
+	}
+	t := append([]string{"C05", "routeseq", "aliases=" + core.HexList(aliases), "reqs=" + core.JoinList2(rs)}, RouteTokens(rc, nil)...)
+	ans := m.MustAsk(t...)
+	parts := strings.Split(ans, " | ")
+	if !strings.HasPrefix(parts[0], "seq ") || len(parts)-1 != len(reqs) {
+		core.Fatalf("unparsable routeseq answer %q", ans)
+	}
+	var out []SeqAnswer
+	for _, it := range parts[1:] {
+		sub := strings.Split(it, " @ ")
+		if len(sub) != 3 {
+			core.Fatalf("unparsable routeseq item %q", it)
+		}
+		a := SeqAnswer{Route: decodeRoute(strings.Fields(sub[0])), URL: string(core.MustUnHex(strings.TrimSpace(sub[2])))}
+		switch pf := strings.Fields(sub[1]); pf[0] {
+		case "fail":
+			a.Pac = &PacResult{Fail: "throw"}
+		case "ok":
+			a.Pac = &PacResult{Return: string(core.MustUnHex(pf[1]))}
+		}
+		out = append(out, a)
+	}
+	return out
+}
+
 // ---- building the real proxy from a FullCfg ----
 
 // PacScriptText renders the PAC table as a script.
@@ -480,6 +624,9 @@ func PacScriptText(rc *RouteCfg) string {
 		}
 		j, _ := json.Marshal(r.Return)
 		return "return " + string(j) + ";"
+	}
+	for _, e := range rc.PacRules {
+		fmt.Fprintf(&b, "  if (%s) { %s }\n", e.Cond.JS(), stmt(e.R))
 	}
 	for _, e := range rc.PacTable {
 		j, _ := json.Marshal(e.Host)
